@@ -197,7 +197,7 @@ if __name__ == "__main__":
     out = ["(* ArchTables.v -- row tables of the three instruction parsers, produced by tools/gen_arch_rows.py from the",
            "   census of accepted forms by probing the implementation; validated against the implementation by the",
            "   correspondence leg of C01-C03 on every run, and against the ISA specifications by the theorems. *)",
-           "From Az65 Require Import Base Token Asm Arch.", "From Az65.Gen Require Import Tables.", "Open Scope N_scope.", ""]
+           "From Az65 Require Import Base Token Asm Arch.", "From Az65.Gen Require Import Tables.", "Local Open Scope N_scope.", ""]
     for arch in ["z80", "sm83", "6502"]:
         rows = main(arch)
         name = PFX[arch] + "_rows"
